@@ -396,6 +396,13 @@ class ASTPostSimplifyMapper(ASTIdentityMapper):
         else:
             return IfThenElse(expr.condition, then, else_)
 
+    def map_ForLoop(self, expr):
+        body = self.rec(expr.body)
+        if isinstance(body, NullASTNode):
+            # A loop around nothing is nothing (back ends have no null node).
+            return NullASTNode()
+        return ForLoop(expr.loop_var_name, expr.lbound, expr.ubound, body)
+
     def map_Block(self, expr):
         new_children = []
         for child in expr.children:
